@@ -646,7 +646,7 @@ def run_case(case, ctx):
     matches.append(hit)
     if hit:
       ok = True
-  if len(wants) == 2 and matches[0] != matches[1]:
+  if len(wants) == 2 and matches[0] != matches[1] and mech == "edit":      # (not where the command line cannot address the section at all)
     # the two readings of "the last key of a section was removed" are distinguishable here: note which one the code took
     # (cross_check demands that it is the same one in every case of the run)
     ctx.cls("last_key_removal_reading:" + ("section_dropped" if matches[0] else "empty_section_kept"))
